@@ -2,12 +2,23 @@
 """Bounded stand-in driver for the extraction-side properties.
 
     /venv/bin/python /verif/props/run.py <ID> --seed S --n N [--focus F] [--budget-s T]
-                     [--no-corpus | --only-corpus] [--tokenizers aho,ref,hs|all] [--all-violations]
+                     [--no-corpus | --only-corpus] [--tokenizers aho,ref,hs|all] [--keep K] [--jobs J]
 
-Prints progress (if any) first and ONE JSON object on the last stdout line:
-  {"property", "evaluations", "distinct", "violations" (first <=10), "violation_counts",
-   "bound", "seed", ...}.  Exit status is always 0.
-Ids not handled here are dispatched to props/run_b.py (same CLI) when that file exists.
+Prints ONE JSON object on the last stdout line:
+  {"property", "evaluations", "distinct", "violations" (first <=K, default 10, at most K/3 per clause),
+   "violation_counts" {clause: n}, "bound", "seed",
+   + "violation_subcounts" (clause:exception / clause:field), "violation_origins" (corpus / generated / values),
+     "coverage" (citations of each kind the clauses were evaluated on, skipped inputs), "truncated",
+     "checker_errors" (exceptions inside a checker: never silently a clean run), "eyecite" (module under test),
+     "hashseed", "jobs", "wall_s"}.
+Exit status is always 0.  Ids not handled here are dispatched to props/run_b.py (same CLI) when that file exists.
+
+Inputs: the regression corpus (every witness text of DESIGN section 7; --no-corpus drops it, --only-corpus keeps
+only it) followed by --n documents of gen.py for (--seed, --focus).  --focus takes a function qualified name
+("helpers.add_defendant", "eyecite.helpers.add_defendant") or an obligation name ("helpers.add_defendant/post:x");
+see gen.FOCUS; an unknown focus means the default mix.  C04 and C12 run all three shipped tokenizers and fork
+--jobs workers (default 6) after building them; the other properties use the default tokenizer unless --tokenizers.
+EYECITE_REPO=<dir containing eyecite/> selects the code under test.  PYTHONHASHSEED is pinned to the seed.
 """
 import argparse
 import json
@@ -186,6 +197,7 @@ def run_property(pid, seed, n, focus=None, budget_s=None, corpus=True, only_corp
         "jobs": jobs,
         "checker_errors": checker_errors[:5],
         "eyecite": checkers.EYECITE_FILE,
+        "hashseed": os.environ.get("PYTHONHASHSEED"),
         "wall_s": round(time.time() - t0, 2),
         "setup_s": round(setup_s, 2),
     }
@@ -219,6 +231,13 @@ def main(argv=None):
         _dispatch_other(argv, "run_b.py")
         print(json.dumps({"property": pid, "error": "unknown property id and no props/run_b.py", "evaluations": 0, "distinct": 0, "violations": [], "violation_counts": {}, "bound": "none", "seed": args.seed}))
         return 0
+    # eyecite's own output depends on the string-hash seed (AhocorasickTokenizer.get_extractors returns a
+    # set, so same-span candidates such as a full and a short reading of "2 T.C. at 82103" are ordered by
+    # hash).  Pin it to the run seed so that a run is reproducible and different seeds see different orders.
+    if os.environ.get("PYTHONHASHSEED") is None:
+        env = dict(os.environ, PYTHONHASHSEED=str(args.seed % 4294967296))
+        sys.stdout.flush()
+        os.execve(sys.executable, [sys.executable, os.path.abspath(__file__)] + argv, env)
     try:
         rep = run_property(pid, args.seed, args.n, focus=args.focus, budget_s=args.budget_s, corpus=not args.no_corpus, only_corpus=args.only_corpus, tokenizers=args.tokenizers, keep=args.keep, jobs=args.jobs)
     except Exception as e:
